@@ -6,8 +6,11 @@ package peerq
 
 import (
 	"context"
+	"encoding/json"
 	"fmt"
 	"math"
+	"os"
+	"path/filepath"
 	"runtime"
 	"sync"
 	"sync/atomic"
@@ -17,6 +20,30 @@ import (
 
 	"verifharness/emit"
 )
+
+// fixEmptyShards rewrites stats.json of a run without cases so that "shards" is an empty list.
+func fixEmptyShards() error {
+	dir := os.Getenv("VERIF_OUT")
+	if dir == "" {
+		dir = "."
+	}
+	p := filepath.Join(dir, "stats.json")
+	b, err := os.ReadFile(p)
+	if err != nil {
+		return err
+	}
+	var st map[string]any
+	if err := json.Unmarshal(b, &st); err != nil {
+		return err
+	}
+	if st["shards"] == nil {
+		st["shards"] = []string{}
+	}
+	if b, err = json.MarshalIndent(st, "", " "); err != nil {
+		return err
+	}
+	return os.WriteFile(p, b, 0o644)
+}
 
 // pq is the part of p2p.VerifPeerQueue the driver uses.
 type pq interface {
@@ -307,6 +334,7 @@ func runSeq(t *testing.T, w *emit.Writer, kind string, scores []float32, sub uin
 			emit.List(entries(fids, fscores)), emit.N(uint64(tok)), emit.N(uint64(pend)))
 		class := fmt.Sprintf("seq/n%d/len%d/env%v/blockedpush%v/blockedpop%v", n, len(ops)/8, hasEnv, sawBlockedPush, sawBlockedPop)
 		w.Add(term, map[string]any{"kind": kind, "n": n, "ops": opNames, "seed": emit.Seed(), "subseed": sub}, class, len(ops) > 0)
+		beat.Add(1)
 		w.Count("family", kind)
 		w.Count("n", fmt.Sprint(n))
 		w.Count("pend", fmt.Sprint(pend))
@@ -610,6 +638,7 @@ func runConc(t *testing.T, w *emit.Writer, rng *emit.Rand, hammer bool) {
 		}
 		w.Add(term, map[string]any{"kind": fam, "n": n, "k": k, "rounds": rounds, "pops": total, "timeouts": timeouts,
 			"dropped": len(dropped), "seed": emit.Seed(), "subseed": sub}, class, true)
+		beat.Add(1)
 		w.Count("family", fam)
 		w.Count(fam+"_n", fmt.Sprint(n))
 		w.Count(fam+"_k", fmt.Sprint(k))
@@ -654,11 +683,44 @@ func runConc(t *testing.T, w *emit.Writer, rng *emit.Rand, hammer bool) {
 
 // ---------------------------------------------------------------------------------------------
 
+// beat counts finished cases. A queue call that dies while it holds statsLk leaves every later call
+// parked on a sync.Mutex, which is not a durable block: the bubble neither advances its clock nor
+// reports a deadlock. The watchdog (outside every bubble, real time) turns that into a crash that
+// names the case, instead of a silent wait for the test timeout.
+var beat atomic.Int64
+
+func watchdog(w *emit.Writer, limit time.Duration) (stop func()) {
+	quit := make(chan struct{})
+	go func() {
+		last, since := beat.Load(), time.Now()
+		tick := time.NewTicker(500 * time.Millisecond)
+		defer tick.Stop()
+		for {
+			select {
+			case <-quit:
+				return
+			case <-tick.C:
+			}
+			if b := beat.Load(); b != last {
+				last, since = b, time.Now()
+			} else if time.Since(since) > limit {
+				panic(fmt.Sprintf("peerq: case %d made no progress for %v of real time: the queue is wedged "+
+					"(a goroutine parked on a lock that is never released?)", b, limit))
+			}
+		}
+	}()
+	return func() { close(quit) }
+}
+
 func TestPeerQ(t *testing.T) {
 	w := emit.NewWriter("Model.PeerQueue Oracle.PeerQueue", "casePQ", "chkPQ")
 	if newQueue == nil {
 		w.Rule = "SKIPPED: p2p/peerq_verif.go accessor hook not compiled in (build tag peerqhook)"
 		if err := w.Flush(); err != nil {
+			t.Fatal(err)
+		}
+		// emit.Flush leaves "shards": null when there is no case; check iterates over it
+		if err := fixEmptyShards(); err != nil {
 			t.Fatal(err)
 		}
 		t.Log("peerq: accessor hook not compiled in (build tag peerqhook); no cases emitted")
@@ -680,6 +742,7 @@ func TestPeerQ(t *testing.T) {
 		nSeq, maxOps, nConc, nHammer = 3000, 120, 600, 200
 	}
 	start := time.Now()
+	defer watchdog(w, 45*time.Second)()
 	for _, b := range boundaryCases() {
 		runSeq(t, w, "seq_boundary", b.scores, 0, scripted(b.ops))
 	}
